@@ -26,7 +26,10 @@ type RefResult struct {
 	Ran           []string       // dag: nodes that ran (this level)
 	MixedPreds    bool           // dag: a node had both finished and skipped control predecessors
 	Ambiguous     bool           // outcome depends on step timing the statement does not fix
+	ExecsUncertain bool          // the run fails; which other nodes still ran is not fixed by the statement
 	NodeRuns      map[string]int // per node path
+	FaultTags     []string       // tags of fault-carrying lambdas that the model executed
+	CancelSeen    bool           // a lambda with Fault == cancel executed
 }
 
 func (r *RefResult) absorb(sub *RefResult) {
@@ -37,7 +40,10 @@ func (r *RefResult) absorb(sub *RefResult) {
 	r.BranchVaried = r.BranchVaried || sub.BranchVaried
 	r.MixedPreds = r.MixedPreds || sub.MixedPreds
 	r.Ambiguous = r.Ambiguous || sub.Ambiguous
+	r.ExecsUncertain = r.ExecsUncertain || sub.ExecsUncertain
 	r.GraphNodeRan = true
+	r.FaultTags = append(r.FaultTags, sub.FaultTags...)
+	r.CancelSeen = r.CancelSeen || sub.CancelSeen
 	if sub.MaxNodeRuns > r.MaxNodeRuns {
 		r.MaxNodeRuns = sub.MaxNodeRuns
 	}
@@ -99,7 +105,12 @@ func evalNode(res *RefResult, n *NodeSpec, path string, in any) (any, string) {
 	case "lambda":
 		c := Canon(x)
 		res.Execs = append(res.Execs, Exec{Node: tag, In: c})
-		if n.Fault != "" {
+		switch n.Fault {
+		case "":
+		case "cancel":
+			res.CancelSeen = true
+		default:
+			res.FaultTags = append(res.FaultTags, tag)
 			return nil, "fault"
 		}
 		ftag := tag
@@ -210,6 +221,10 @@ func refPregel(sp *Spec, path string, in any, o RefOpts) *RefResult {
 			res.Out = v
 			return res
 		}
+		if res.CancelSeen && path == "" {
+			res.Fail = "canceled"
+			return res
+		}
 		if step >= maxSteps {
 			res.Fail = "maxsteps"
 			return res
@@ -312,6 +327,7 @@ func refDAG(sp *Spec, path string, in any) *RefResult {
 	evalBranches(Start)
 	endFail := ""
 	endDone := false
+	failedNodes := map[string]string{}
 	execSpan := map[string][2]int{}
 	for _, k := range order {
 		if k == Start {
@@ -414,9 +430,10 @@ func refDAG(sp *Spec, path string, in any) *RefResult {
 		o, fail := evalNode(res, sp.Node(k), path, inV)
 		execSpan[k] = [2]int{before, len(res.Execs)}
 		if fail != "" {
-			res.Fail = fail
-			res.Ambiguous = true
-			return res
+			// the run fails; keep evaluating (successors count as not run) to learn which other failures
+			// could be reported instead
+			failedNodes[k] = fail
+			continue
 		}
 		ran[k] = true
 		res.Ran = append(res.Ran, k)
@@ -450,6 +467,29 @@ func refDAG(sp *Spec, path string, in any) *RefResult {
 			res.Optional = append(res.Optional, res.Execs[span[0]:span[1]]...)
 			res.OptionalNodes = append(res.OptionalNodes, path+k)
 		}
+	}
+	if len(failedNodes) > 0 {
+		classes := map[string]bool{}
+		certain := false
+		first := ""
+		for _, k := range order {
+			if f, ok := failedNodes[k]; ok {
+				classes[f] = true
+				if first == "" {
+					first = f
+				}
+				if anc[k] {
+					certain = true // END cannot be assembled without this node
+				}
+			}
+		}
+		res.Fail = first
+		res.Out = nil
+		res.ExecsUncertain = true
+		if !certain || len(classes) > 1 {
+			res.Ambiguous = true
+		}
+		return res
 	}
 	if !endDone {
 		if endFail == "" {
